@@ -746,6 +746,9 @@ def rule_compression(ctx: Ctx):
                     wb[dotted_name(n.func)] = (_fold_wbits(kw.value), n)
             if dotted_name(n.func) == "zlib.decompressobj" and n.args:
                 wb[dotted_name(n.func)] = (_fold_wbits(n.args[0]), n)
+            # compressobj(level, method, wbits, ...): the window is the third positional argument
+            if dotted_name(n.func) == "zlib.compressobj" and len(n.args) >= 3:
+                wb[dotted_name(n.func)] = (_fold_wbits(n.args[2]), n)
     r5.instances += 1
     vals = {k: v[0] for k, v in wb.items()}
     ok = set(vals) == {"zlib.compressobj", "zlib.decompressobj"} and len(set(vals.values())) == 1 and \
@@ -1036,6 +1039,11 @@ def rule_fr3(ctx: Ctx, lazy=False):
                 b = R.d.get("base")
                 # (directly, or through whatever opens / wraps it: open_obj(file, ...), contextlib.nullcontext(file))
                 src_ok = b is not None and any(isinstance(x, tuple) and len(x) > 1 and x[0] == "param" and x[1] == fparam for x in subterms(b))
+                # ... and nothing else is put between the caller's object (or what the caller's opener returned) and the read: a reader
+                # built on its file descriptor (mmap, os.fdopen) bypasses the object's own read -- what a wrapping opener decodes,
+                # decrypts or decompresses -- and its position
+                if src_ok and b[0] == "call" and b[1][0] == "glob" and not b[1][1].startswith("contextlib."):
+                    src_ok = False
                 r3.ob(src_ok, lambda R=R, b=b, p=p, cfg=cfg: Finding(
                     "FR-3", "%s::read{source}" % FILE, R.where(), "on this path (%s) the chunks are read from %s: it must be the file object given as '%s', or the file "
                     "opened from that path" % (cfg_str(cfg), show(b) if b is not None else None, fparam), trace_of(p)))
